@@ -116,8 +116,8 @@ def versionlist_obls(prefix):
             out.append(Obl("%s.versions-%s-K%d-F%d" % (prefix, nm, k, fv), "vset/versionlist.c",
                            real=["dbformat.c", "util/comparator.c", "util/buffer.c", "util/slice.c"], include_real=INC, kit=KIT,
                            defs={"VP_OP": op, "VP_K": k, "VP_FV": fv, "VP_NF": 3, "VP_VEC_CAP": 4}, unwind=9,
-                           unwindset={"vp_realloc_ptrs.0": 5, "check_live.0": 17, "check_live.1": 17, "rb_set64_put.0": 16,
-                                      "ldb_rb_set64_put.0": 16},
+                           unwindset={"vp_realloc_ptrs.0": 5, "check_live.2": 17, "ldb_versions_add_files.0": fv + 1,
+                                      "ldb_versions_add_files.2": k + 3, "ldb_version_clear.0": fv + 1},
                            tier=tier, timeout=400, functions=VL_FUNCS, desc=what,
                            bounds="%d versions x %d files (3 distinct file objects, may be shared), each file at a symbolic level 0..6, "
                                   "version reference counts 1..3, file numbers 1..15" % (k, fv)))
